@@ -13,6 +13,18 @@ Lemma K_wr_reps_inc n : wr_reps_inc n = (n + 1)%Z. Proof. reflexivity. Qed.
 Lemma K_wr_fail c : wr_fail c = negb c. Proof. reflexivity. Qed.
 Lemma K_wr_any_clip a b : wr_any_clip a b = a || b. Proof. reflexivity. Qed.
 
+(* the objective closures of LLHRatio.maximize / TCLLHRatio.maximize_with_1d_newton_rapson_minimizer are
+   functions of their argument only: with `mk v` = pmm.create_src_params_recarray(v), `ev v r` = evaluate(v, r)
+   and `g2 ns r` = calculate_ns_grad2(ns, r), what a call with argument v computes is ev v (mk v), g2 v[ns] (mk v) *)
+Lemma K_mx_closure (mk : Z -> Z) (v nsidx vns : Z) :
+  mx_closure_eval_values v = v /\
+  mx_closure_eval_recarray (mx_closure_recarray (mk v)) = mk v /\
+  mx_closure_grad2_recarray (mx_closure_recarray (mk v)) = mk v /\
+  mx_closure_grad2_ns nsidx vns = vns /\ mx_closure_grad2_ns_idx0 nsidx = nsidx /\
+  mx_closure_gen_eval_values v = v /\
+  mx_closure_gen_eval_recarray (mx_closure_gen_recarray (mk v)) = mk v.
+Proof. repeat split. Qed.
+
 (* ------------------------------------------------------------------ any number system *)
 Section WrapGeneric.
   Context {T : Type} (N : Num T) {St : Type}.
